@@ -34,6 +34,13 @@ FileNotFoundError is compared with the model's listing loop (`c10 listed`).
 Two read() calls: the file reader's first read() sees the file at cut k1, its second at a later cut k2 (entries beyond one
 page): no exception, exactly the keys published at k1, every value/timestamp held at k1 or k2 (C11:two-reads-*; `c10 read2`).
 
+Collector output: at every cut the samples `collect()` exposes for the metrics of the worker file are compared with the
+entries PUBLISHED in the cut file: no series that no published entry gives (histogram: `_bucket{le=b}` only for published
+bounds, `_sum` only if published, `_count` derived from published buckets only), the values the published entries give,
+and every published entry exposed (C11:collector-exposes-unwritten-series / -unwritten-value / collector-drops-published-series).
+A dedicated stream uses the exact store operations REAL Histogram children perform (logged from the real metrics code in
+multiprocess mode: sum, one bucket per bound in order, +Inf last, then observations) in a file named histogram_<pid>.db.
+
 All keys of the histories are built with mmap_dict.mmap_key so that the collector can parse them (continuation keys are plain).
 
 Thorough tier: forked writers run a long seeded history and are SIGKILLed at random instants; the same three observations and
@@ -264,6 +271,95 @@ def observe_collect(d):
                 if s.name == 'pv_healthy_total' and dict(s.labels) == {'w': 'ok'} and s.value == HEALTHY_VALUE:
                     return 'ok'
     return 'missing'
+
+
+def observe_collect_full(d):
+    """('ok' | 'missing' | '!Class', [(metric name, metric type, sample name, labels dict, value)])"""
+    from prometheus_client import CollectorRegistry
+    from prometheus_client.multiprocess import MultiProcessCollector
+    try:
+        metrics = list(MultiProcessCollector(CollectorRegistry(), d).collect())
+    except Exception as e:  # noqa
+        return '!' + errname(e), []
+    st, out = 'missing', []
+    for m in metrics:
+        for s in m.samples:
+            out.append((m.name, m.type, s.name, dict(s.labels), s.value))
+            if m.name == 'pv_healthy' and s.name == 'pv_healthy_total' and dict(s.labels) == {'w': 'ok'} and s.value == HEALTHY_VALUE:
+                st = 'ok'
+    return st, out
+
+
+def go_le(x):
+    from prometheus_client.utils import floatToGoString
+    return floatToGoString(float(x))
+
+
+def judge_exposed(judge, head, case, fname, reader, samples):
+    """the COLLECTOR's output, too, shows nothing that is not published in the cut file: every exposed series of a metric
+    of this worker file corresponds to an entry present in the file (histogram: a `_bucket{le=b}` series only for a
+    published bound, `_sum` only if its entry is published, `_count` only derived from published buckets), with the
+    value the published entries give; and every published entry is exposed"""
+    import json as _json
+    if reader.startswith('!'):
+        return
+    parts = fname.split('_')
+    typ = parts[0]
+    pid = parts[2][:-3] if typ == 'gauge' else None
+    entries = []
+    for k, v, t in parse_triples(reader):
+        try:
+            mname, name, labels, _help = _json.loads(k)
+        except Exception:  # noqa: not an mmap_key (not produced by this harness for collected files)
+            return
+        entries.append((mname, name, dict(labels), bf(v)))
+    mine = {e[0] for e in entries}
+    allk = {_json.loads(kstr(o[1]))[0] for o in case.get('ops', []) if o[0] != 'o'} if case.get('ops') else set()
+    exposed = {}
+    for mname, mtype, sname, labels, value in samples:
+        if mname in mine or mname in allk:
+            exposed[(sname, tuple(sorted(labels.items())))] = value
+    expected = {}
+    if typ == 'histogram':
+        buckets = {}
+        for mname, name, labels, v in entries:
+            if 'le' in labels:
+                wl = tuple(sorted((a, b) for a, b in labels.items() if a != 'le'))
+                buckets.setdefault((mname, wl), {})
+                b = float(labels['le'])
+                buckets[(mname, wl)][b] = buckets[(mname, wl)].get(b, 0.0) + v
+            else:
+                key = (name, tuple(sorted(labels.items())))
+                expected[key] = expected.get(key, 0.0) + v
+        for (mname, wl), vals in buckets.items():
+            acc = 0.0
+            for b in sorted(vals):
+                acc += vals[b]
+                expected[(mname + '_bucket', tuple(sorted(wl + (('le', go_le(b)),))))] = acc
+            expected[(mname + '_count', wl)] = acc
+    elif typ == 'gauge' and parts[1] in ('all', 'liveall'):
+        for mname, name, labels, v in entries:
+            expected[(name, tuple(sorted(list(labels.items()) + [('pid', pid)])))] = v
+    else:
+        for mname, name, labels, v in entries:
+            key = (name, tuple(sorted(labels.items())))
+            expected[key] = expected.get(key, 0.0) + v
+    for key in exposed:
+        if key not in expected:
+            judge.fail('C11:collector-exposes-unwritten-series',
+                       head + 'collect() exposes %s%s = %r, but no entry published in the file at this cut gives that series '
+                       '(published: %s)' % (key[0], dict(key[1]), exposed[key], short_triples(reader, 200)), case)
+            return
+    for key, v in expected.items():
+        if key not in exposed:
+            judge.fail('C11:collector-drops-published-series', head + 'the published entry behind %s%s is not exposed by collect()' % (
+                key[0], dict(key[1])), case)
+            return
+        ev = exposed[key]
+        if not (ev == v or (ev != ev and v != v)):
+            judge.fail('C11:collector-exposes-unwritten-value', head + 'collect() exposes %s%s = %r, the published entries give %r' % (
+                key[0], dict(key[1]), ev, v), case)
+            return
 
 
 def observe_reopen(md, src, copy, init, fresh_key):
@@ -699,7 +795,7 @@ def fresh_key_for(md, ops):
 
 
 def check_history(ctx, judge, md, scratch, init, ops, model_reply, label, only_cut=None, verbose=False, pending=None,
-                  cont_override=None, pending2=None, cont2_override=None, gen2_every=5):
+                  cont_override=None, pending2=None, cont2_override=None, gen2_every=5, fname='gauge_all_777.db'):
     """record, compare the trace with the model, then every cut.  Returns the Recorded object (or None)."""
     path = os.path.join(scratch.copydir, 'recording.db')
     rec = record_history(md, path, init, ops)
@@ -734,7 +830,6 @@ def check_history(ctx, judge, md, scratch, init, ops, model_reply, label, only_c
     fresh = fresh_key_for(md, ops)
     hk = hist_key(init, ops)
     content = None
-    fname = 'gauge_all_777.db'
     for k in range(1, len(rec.effects) + 1):
         content = apply_effect(content, rec.effects[k - 1])
         if only_cut is not None and k != only_cut:
@@ -743,12 +838,14 @@ def check_history(ctx, judge, md, scratch, init, ops, model_reply, label, only_c
         kind = cut_kind(rec.effects, rec.bounds, k) if rec.bounds else 'in-constructor'
         if kind == 'after-truncate-initial' and not any(content):
             kind = 'after-truncate-initial-all-zero'
-        case = dict(case0, cut=k)
+        case = dict(case0, cut=k) if fname == 'gauge_all_777.db' else dict(case0, cut=k, fname=fname)
         head = head0 + 'cut after effect %d/%d (%s; %s): ' % (k, len(rec.effects), short_triples(eff_str(rec.effects[k - 1]), 60), kind)
         p = scratch.put(fname, content)
         reader = base.file_reader(md, p)
-        collect = observe_collect(scratch.dir)
+        collect, exposed = observe_collect_full(scratch.dir)
         reopen = observe_reopen(md, p, os.path.join(scratch.copydir, fname), init, fresh)
+        if collect in ('ok', 'missing'):
+            judge_exposed(judge, head, dict(case0, cut=k, fname=fname), fname, reader, exposed)
         ctx.case((hk, k) if inside else None,
                  {'init': init, 'history': short_ops(ops, 4), 'cut': k, 'kind': kind, 'file': short_triples(file_str(content), 100),
                   'reader': short_triples(reader, 100)})
@@ -776,7 +873,7 @@ def check_history(ctx, judge, md, scratch, init, ops, model_reply, label, only_c
         if (only_cut is not None or (7 * k + len(ops)) % gen2_every == 0) and not reader.startswith('!') \
                 and ref.admissible(reader, completed, in_op):
             c2 = dict(case, cont2=cont2_override) if cont2_override else case
-            check_second_generation(ctx, judge, md, scratch, init, ops, k, content, reader, head, c2, pending2, verbose)
+            check_second_generation(ctx, judge, md, scratch, init, ops, k, content, reader, head, c2, pending2, verbose, fname=fname)
             scratch.put(fname, content)
         if kind == 'after-truncate-initial-all-zero':
             # pinned explicitly: an all-zero file of full size reads as empty and reopens with used = 8
@@ -816,7 +913,8 @@ def continuation_json(md, ops, k):
     return [list(o) for o in patterns[(k + 2 * len(ops)) % len(patterns)]]
 
 
-def check_second_generation(ctx, judge, md, scratch, init, ops, k, content, found, head, case, pending2, verbose=False):
+def check_second_generation(ctx, judge, md, scratch, init, ops, k, content, found, head, case, pending2, verbose=False,
+                            fname='gauge_all_777.db'):
     """crash -> a new writer opens the file, continues, crashes again: every cut of THAT writer is materialised and read"""
     cont = case.get('cont2') or continuation_json(md, ops, k)
     case = dict(case, cont2=cont)
@@ -828,7 +926,6 @@ def check_second_generation(ctx, judge, md, scratch, init, ops, k, content, foun
         return
     ref2 = Ref(cont, start=parse_triples(found), before=ops)
     fresh = fresh_key_for(md, list(ops) + list(cont))
-    fname = 'gauge_all_777.db'
     cur = bytearray(content)
     rows = []
     for j in range(1, len(rec2.effects) + 1):
@@ -1081,17 +1178,81 @@ def run_two_reads(ctx, judge, md, tmp, real_size):
                 ctx.diverge(head + 'model two-snapshot reader %s, implementation %s' % (short_triples(rep, 160), short_triples(r, 160)), case)
 
 
+# ------------------------------------------------------------------------------------------------- what a real Histogram writes
+def histogram_history(md, tmp, labelnames, children, buckets, observations):
+    """the store operations (in order) that real `Histogram(...)[.labels(...)]` children perform in multiprocess mode:
+    sum first, then one bucket per bound in order, +Inf last, then the observations — logged from the real metrics code"""
+    import prometheus_client.values as values
+    from prometheus_client import CollectorRegistry, Histogram
+    d = os.path.join(tmp, 'histrec')
+    shutil.rmtree(d, ignore_errors=True)
+    os.makedirs(d)
+    log = []
+    real_r, real_w = md.MmapedDict.read_value, md.MmapedDict.write_value
+
+    def read_value(self, key):
+        log.append(['r', key])
+        return real_r(self, key)
+
+    def write_value(self, key, value, timestamp):
+        log.append(['w', key, fb(value), fb(timestamp)])
+        return real_w(self, key, value, timestamp)
+
+    saved_env = os.environ.get('PROMETHEUS_MULTIPROC_DIR')
+    saved_vc = values.ValueClass
+    os.environ['PROMETHEUS_MULTIPROC_DIR'] = d
+    values.ValueClass = values.MultiProcessValue(process_identifier=lambda: 777)
+    md.MmapedDict.read_value, md.MmapedDict.write_value = read_value, write_value
+    try:
+        kw = {} if buckets is None else {'buckets': buckets}
+        h = Histogram('pv_h', 'a histogram', labelnames, registry=CollectorRegistry(), **kw)
+        kids = [h.labels(*c) for c in children] if labelnames else [h]
+        for i, x in observations:
+            kids[i % len(kids)].observe(x)
+    finally:
+        md.MmapedDict.read_value, md.MmapedDict.write_value = real_r, real_w
+        values.ValueClass = saved_vc
+        if saved_env is None:
+            os.environ.pop('PROMETHEUS_MULTIPROC_DIR', None)
+        else:
+            os.environ['PROMETHEUS_MULTIPROC_DIR'] = saved_env
+    produced = os.listdir(d)
+    if produced != ['histogram_777.db']:
+        raise lib.Infra('C11: a real Histogram child wrote %s, expected histogram_777.db' % produced)
+    shutil.rmtree(d, ignore_errors=True)
+    return log
+
+
+def histogram_cases(ctx, md, tmp, real_size):
+    rng = ctx.rng
+    specs = [
+        ((), [()], (0.5, 2.5), [(0, 0.3), (0, 7.0)]),
+        (('l',), [('a',)], (1.0,), [(0, 0.5)]),
+        (('l',), [('a',), ('b',)], (0.1, 1.0, 10.0), [(0, 0.05), (1, 3.0), (0, 100.0)]),
+        (('m', 'n'), [('x', 'y')], None, [(0, 0.2)]),                       # the 15 default buckets
+        ((), [()], (-1.0, 0.0, 1e6, 1.5e10), [(0, -2.0), (0, 2e9)]),
+        (('l',), [(''.join(rng.choice('abé\u4e2d') for _ in range(rng.randint(0, 9))),)], (0.25, 0.5, 0.75),
+         [(0, rng.random()) for _ in range(3)]),
+    ]
+    out = []
+    for labelnames, children, buckets, obs in specs:
+        ops = histogram_history(md, tmp, labelnames, children, buckets, obs)
+        out.append((SMALL, ops))
+    out.append((real_size, out[2][1]))
+    return out
+
+
 def cuts_line(init, ops):
     return 'c10 cuts %d %d %s' % (init, PAGE, base.enc_ops(ops))
 
 
-def run_histories(ctx, judge, md, scratch, cases, label):
+def run_histories(ctx, judge, md, scratch, cases, label, fname='gauge_all_777.db'):
     replies = base.drv(ctx, [cuts_line(init, ops) for init, ops in cases])
     recs = []
     pending, pending2 = [], []
     for i, (init, ops) in enumerate(cases):
         rec = check_history(ctx, judge, md, scratch, init, ops, None if replies is None else replies[i], label, pending=pending,
-                            pending2=pending2, gen2_every=5 if init == SMALL else 11)
+                            pending2=pending2, gen2_every=5 if init == SMALL else 11, fname=fname)
         if rec is not None and rec.err is None:
             recs.append((init, ops, rec))
         if len(pending) >= 1500:
@@ -1407,6 +1568,8 @@ def run(ctx):
         ctx.rng = random.Random((ctx.seed * 1000003) ^ lib.hash_str('C11-two'))
         run_two_reads(ctx, judge, md, tmp, real_size)
         ctx.rng = saved_rng
+        run_histories(ctx, judge, md, scratch, histogram_cases(ctx, md, tmp, real_size), 'real-histogram-children',
+                      fname='histogram_777.db')
         cs = corpus(md)
         recs += run_histories(ctx, judge, md, scratch, [(init, ops) for ops in cs for init in (SMALL, real_size)], 'corpus')
         alpha = exhaustive_alphabet(md)
@@ -1455,7 +1618,8 @@ def replay(ctx, case):
             pending, pending2 = [], []
             check_history(ctx, judge, md, scratch, init, ops, None if rep is None else rep[0], 'replay',
                           only_cut=int(c['cut']) if c.get('cut') is not None else None, verbose=True, pending=pending,
-                          cont_override=c.get('cont'), pending2=pending2, cont2_override=c.get('cont2'))
+                          cont_override=c.get('cont'), pending2=pending2, cont2_override=c.get('cont2'),
+                          fname=c.get('fname', 'gauge_all_777.db'))
             compare_continuations(ctx, pending)
             compare_second_generation(ctx, pending2)
         elif kind == 'vanish':
